@@ -1372,6 +1372,16 @@ func cmdStream(args []string) error {
 		tot["sends"] += ar.Sends
 		tot["violations"] += len(ar.Violations)
 	}
+	for _, f := range []func() (*streamResult, error){runFirstRequestAcks, runMixedModAck, runBigMessage} {
+		xr, err := f()
+		if err != nil {
+			return err
+		}
+		results = append(results, xr)
+		tot["scenarios_forced"]++
+		tot["sends"] += xr.Sends
+		tot["violations"] += len(xr.Violations)
+	}
 	for _, k := range []string{"nack-refetch", "refresh-race", "two-external-acks"} {
 		fr, err := runForced(k)
 		if err != nil {
